@@ -75,6 +75,8 @@ pub fn run_prop(prop: &'static str, sem: hist::Sem, seed: u64, run: u64) -> Repo
             Ev::Idle => json!("idle-timer-fires"),
             Ev::Burst { n } => json!({"burst_of_up_to": n}),
             Ev::Noise { kind } => json!({"notification_without_a_handler": kind}),
+            Ev::ConfigOnDisk { main } => json!({"oal_toml_rewritten_on_disk_main": main}),
+            Ev::Reopen { path, text } => json!({"open_again_while_open": path, "bytes": text.len()}),
             Ev::Request { kind, path, pos, .. } => json!({"request": format!("{kind:?}"), "path": path, "pos": pos}),
             Ev::RenameLoop { path, pos, new_name } => json!({"rename_loop": path, "pos": pos, "new_name": new_name}),
             Ev::Folder { add, b } => json!({"folder_added": add, "second_folder": b}),
